@@ -64,6 +64,13 @@ CHECKS["C16"] = dict(
     ref="DESIGN.md 5 C16",
 )
 
+CHECKS["C15"] = dict(
+    text="Seeded histories of namespace operations (mapping set / delete, @namespace rule insert / delete, namespaced style rules added at top level and in @media, selectors replaced, rules moved between sheets, sheet text replaced, restart) on one or two sheets; after every step the mapping must equal the effective @namespace rules (V1), every used URI must be declared (V2), removal of a used namespace and undeclared prefixes must be rejected without change (V3, V7), every selector the harness created must keep its (URI, local name) pairs (V4), serialised @namespace rules must stay well-formed, and a restart must re-resolve to the same pairs (V5, V6).",
+    note="Outcomes the statement leaves open (re-binding a prefix to a URI that has one; two rules binding one prefix to different URIs) are observed, not predicted. One recorded known finding (unprefixed names written before a default namespace exists are serialised '|name'; pinned by the suite). Sampling, not proof.",
+    technique="deterministic simulation: seeded namespace-edit histories with state invariants, tracked selector meanings and restart steps",
+    ref="DESIGN.md 5 C15",
+)
+
 PENDING = {'C01': "check not built yet in this round (claimed by DESIGN.md section 2; will move to 'checks' when its simulation world exists)", 'C03': "check not built yet in this round (claimed by DESIGN.md section 2; will move to 'checks' when its simulation world exists)", 'C08': "check not built yet in this round (claimed by DESIGN.md section 2; will move to 'checks' when its simulation world exists)", 'C09': "check not built yet in this round (claimed by DESIGN.md section 2; will move to 'checks' when its simulation world exists)", 'C10': "check not built yet in this round (claimed by DESIGN.md section 2; will move to 'checks' when its simulation world exists)", 'C11': "check not built yet in this round (claimed by DESIGN.md section 2; will move to 'checks' when its simulation world exists)", 'C12': "check not built yet in this round (claimed by DESIGN.md section 2; will move to 'checks' when its simulation world exists)", 'C14': "check not built yet in this round (claimed by DESIGN.md section 2; will move to 'checks' when its simulation world exists)", 'C15': "check not built yet in this round (claimed by DESIGN.md section 2; will move to 'checks' when its simulation world exists)", 'C16': "check not built yet in this round (claimed by DESIGN.md section 2; will move to 'checks' when its simulation world exists)", 'C17': "check not built yet in this round (claimed by DESIGN.md section 2; will move to 'checks' when its simulation world exists)", 'C19': "check not built yet in this round (claimed by DESIGN.md section 2; will move to 'checks' when its simulation world exists)"}
 
 
